@@ -608,6 +608,9 @@ func C16() int {
 		}
 	}
 	items = append(items, c16BuiltinPrograms()...)
+	for _, cp := range crossReduced(r.Thorough()) { // the cross-feature space (cross.go)
+		items = append(items, c16Item{name: "cross " + cp.name, src: PrintProg(*cp.prog)})
+	}
 	for _, c := range c09Cases(r.Thorough()) { // multi-file programs: unused-function removal must not leave calls without a routine
 		files := map[string]string{}
 		for _, l := range c.libs {
@@ -678,7 +681,7 @@ func C16() int {
 		}
 		if !rb.OK() || !rw.OK() {
 			// C16 speaks about accepted programs; generated programs are meant to be accepted
-			if strings.HasPrefix(it.name, "builtin") || strings.HasPrefix(it.name, "skeleton") || strings.HasPrefix(it.name, "empty") || strings.HasPrefix(it.name, "imports") {
+			if strings.HasPrefix(it.name, "builtin") || strings.HasPrefix(it.name, "cross") || strings.HasPrefix(it.name, "skeleton") || strings.HasPrefix(it.name, "empty") || strings.HasPrefix(it.name, "imports") {
 				fail("generated-program-rejected", rb.Err+" / "+rw.Err, "")
 			}
 			return
@@ -722,7 +725,7 @@ func C16() int {
 	r.Set("evaluations", done)
 	r.Set("distinct_nontrivial", len(items))
 	r.Set("exhaustive", !capped)
-	r.Set("rule", "union of the program enumerators of C01 (control skeletons, with a marker print in every block, behind every construct and in front of every break/continue), C02, C03, C04 at larger bounds than their executing checks, plus every builtin that cannot be executed blindly (input, read, write, exists, @app chains, copy, panic) in every statement position and context, empty blocks of every kind, 8 chained functions, nesting depth 6. Oracle Bash: `bash -n` accepts the script. Oracle Batch (structural reading of the script text): parentheses outside quotes balance, every goto/call target label exists, no label is defined twice, every helper routine present is reachable from a call and every called routine is present, and jump containment independent of label naming: located through the marker prints, the jump emitted for each continue lands in the head region of its own loop, for each break in the tail region of its own loop, and every other marker-crossing jump of a construct lands on its own head (loops) or directly behind it. Distinct by source text.")
+	r.Set("rule", "union of the program enumerators of C01 (control skeletons, with a marker print in every block, behind every construct and in front of every break/continue), C02, C03, C04 at larger bounds than their executing checks, plus every builtin that cannot be executed blindly (input, read, write, exists, @app chains, copy, panic) in every statement position and context, empty blocks of every kind, 8 chained functions, nesting depth 6, and the cross-feature space of cross.go. Oracle Bash: `bash -n` accepts the script. Oracle Batch (structural reading of the script text): parentheses outside quotes balance, every goto/call target label exists, no label is defined twice, every helper routine present is reachable from a call and every called routine is present, and jump containment independent of label naming: located through the marker prints, the jump emitted for each continue lands in the head region of its own loop, for each break in the tail region of its own loop, and every other marker-crossing jump of a construct lands on its own head (loops) or directly behind it. Distinct by source text.")
 	r.Assumef("Batch well-formedness is decided on the script text (no cmd.exe); string contents in these programs contain no quotes or parentheses (C08 owns data)")
 	return finish(r)
 }
